@@ -166,6 +166,21 @@ register("C16",
          "TLA+ rational model checked by TLC + TLC trace validation of the parser on rendered strings",
          "DESIGN.md §4 C16")
 
+register("C05",
+         "Shells.tla states C05 declaratively on integer radii (units 0.05 A, boundaries = midpoints) with every output entry a "
+         "pair (rational coefficient, direction atom) and models the construction of the position matrices operationally "
+         "(off-diagonals at +-n_o from between_radii[:-1] / increments[1:]+[last], per-shell scaling of the unit-sphere block); "
+         "TLC checks operational = declarative, symmetry of coefficients, telescoping of shell volumes and interleaving of "
+         "boundaries for all radial grids of length 1..4 from a 7-value pool x n_o<=3 x all direction adjacencies; three "
+         "modelled slips are negative configs. TLC then acts as evaluator: for 42 (quick) / ~1500 (thorough) combinations of "
+         "unequally spaced radial grids (given in several text formats) and real direction grids of all algorithms it writes "
+         "the expected structure, and the driver compares EVERY volume, border and distance entry and the three patterns of "
+         "the real PositionGrid (relative 1e-9) plus the ball-volume sum.",
+         "Direction atoms (area, arc, angle) come from the direction grid's own getters (decided by C03); radii on the 0.1 A "
+         "lattice; float comparison at relative 1e-9 done by the driver on expectations computed by TLC.",
+         "TLA+ operational-vs-declarative model checked by TLC + TLC evaluator (spec->code) compared entry by entry",
+         "DESIGN.md §4 C05")
+
 ALL = [f"C{i:02d}" for i in range(1, 21)]
 
 
